@@ -23,3 +23,14 @@ OBLIGATIONS = [
        props=("C06", "C02", "C12"), gi_pre=["--replace-calls", "crypto_sign_ed25519_verify_detached:s_verify_detached"], assumes=["verify_detached replaced by an arbitrary verdict here (its check set: c06.f.verify_detached)", "memmove over-approximated (exact at a ghost offset)"],
        bound="values: smlen <= 4160", cbmc=["--unwind", "66", "--unwinding-assertions", "--object-bits", "18"]),
 ]
+
+SA = ["SHA-512, sc25519_reduce / muladd, ge25519_scalarmult_base / p3_tobytes and randombytes_buf are logging stubs with arbitrary-but-known results: equality with RFC 8032 test vectors is NOT decided, the data flow is"]
+OBLIGATIONS += [
+    ob("c06.f.sign_detached", "hf_sign_detached", ["_crypto_sign_ed25519_detached", "_crypto_sign_ed25519_ref10_hinit", "_crypto_sign_ed25519_clamp"],
+       "signing data flow of RFC 8032 5.1.6 (plain and pre-hashed): az, r-hash input order, R, public key placed before hashing k, k-hash input order, clamp, S = k*a + r, signature R || S, every message length",
+       src="harness/sign.c", assumes=SA, replayable=True, bound="values: message length <= 65535", cbmc=["--unwind", "66", "--unwinding-assertions", "--object-bits", "18"]),
+    ob("c06.f.keypair", "hf_keypair", ["crypto_sign_ed25519_seed_keypair", "crypto_sign_ed25519_keypair"], "key generation: a = clamp(SHA-512(seed)[0..32)), pk = a*B, sk = seed || pk; random variant draws a 32-byte seed",
+       src="harness/sign.c", props=("C06", "C18", "C12"), assumes=SA, replayable=True, cbmc=["--unwind", "66", "--unwinding-assertions"]),
+    ob("c06.f.sk_to_curve25519", "hf_sk_to_curve", ["crypto_sign_ed25519_sk_to_curve25519"], "secret-key conversion uses the same clamped scalar as public-key derivation (the commuting property then rests on the assumed birational map)",
+       src="harness/sign.c", assumes=SA, replayable=True, cbmc=["--unwind", "66", "--unwinding-assertions"]),
+]
